@@ -1,14 +1,38 @@
 use super::{constant::*, ConfigEntity};
 use crate::{base::ResourceType, logging, utils, Error, Result};
 use serde_yaml;
-use std::cell::RefCell;
+use lazy_static::lazy_static;
 use std::env;
 use std::fs::File;
 use std::io::prelude::*;
 use std::path::Path;
+use std::sync::{RwLock, RwLockReadGuard, RwLockWriteGuard};
 
-thread_local! {
-    static GLOBAL_CONFIG : RefCell<ConfigEntity> = RefCell::new(ConfigEntity::new());
+/// The configuration is shared by every thread of the process.
+/// The accessors below keep the `with`/`try_with` + `borrow`/`borrow_mut` shape they had
+/// when the store was a thread-local `RefCell`.
+struct GlobalConfig(RwLock<ConfigEntity>);
+
+impl GlobalConfig {
+    fn borrow(&self) -> RwLockReadGuard<'_, ConfigEntity> {
+        self.0.read().unwrap_or_else(|e| e.into_inner())
+    }
+
+    fn borrow_mut(&self) -> RwLockWriteGuard<'_, ConfigEntity> {
+        self.0.write().unwrap_or_else(|e| e.into_inner())
+    }
+
+    fn with<R>(&self, f: impl FnOnce(&GlobalConfig) -> R) -> R {
+        f(self)
+    }
+
+    fn try_with<R>(&self, f: impl FnOnce(&GlobalConfig) -> R) -> std::result::Result<R, ()> {
+        Ok(f(self))
+    }
+}
+
+lazy_static! {
+    static ref GLOBAL_CONFIG: GlobalConfig = GlobalConfig(RwLock::new(ConfigEntity::new()));
 }
 
 pub fn reset_global_config(entity: ConfigEntity) {
